@@ -189,8 +189,33 @@ class ConsumerPowerFormula(FormulaGenerator[Power]):
                 and not component_graph.is_ev_charger_chain(component)
             )
 
+        def non_consumer_component(component: Component) -> bool:
+            """
+            Check if a component is not a consumer component.
+
+            Args:
+                component: The component to check.
+
+            Returns:
+                True if the component is not a consumer component, False otherwise.
+            """
+            return (
+                component_graph.is_battery_chain(component)
+                or component_graph.is_chp_chain(component)
+                or component_graph.is_pv_chain(component)
+                or component_graph.is_ev_charger_chain(component)
+            )
+
         component_graph = connection_manager.get().component_graph
         consumer_components = component_graph.dfs(grid, set(), consumer_component)
+
+        # The meters found above also measure the non-consumer components that
+        # are connected behind them, so they need to be subtracted again.
+        non_consumer_components: set[Component] = set()
+        for component in consumer_components:
+            non_consumer_components = non_consumer_components.union(
+                component_graph.dfs(component, set(), non_consumer_component)
+            )
 
         if not consumer_components:
             _logger.warning(
@@ -228,6 +253,26 @@ class ConsumerPowerFormula(FormulaGenerator[Power]):
                 if idx > 0:
                     builder.push_oper("+")
 
+                builder.push_component_metric(
+                    component.component_id,
+                    nones_are_zeros=component.category != ComponentCategory.METER,
+                )
+
+        if self._config.allow_fallback:
+            for primary_component, fallback_formula in self._get_fallback_formulas(
+                non_consumer_components
+            ).items():
+                builder.push_oper("-")
+                builder.push_component_metric(
+                    primary_component.component_id,
+                    nones_are_zeros=(
+                        primary_component.category != ComponentCategory.METER
+                    ),
+                    fallback=fallback_formula,
+                )
+        else:
+            for component in non_consumer_components:
+                builder.push_oper("-")
                 builder.push_component_metric(
                     component.component_id,
                     nones_are_zeros=component.category != ComponentCategory.METER,
